@@ -315,6 +315,9 @@ func checkC02(c *Ctx) {
 		r.Check(len(callers) == 1 && callers[0] == "AddRegistration", "C02.5", "register is called only from AddRegistration", reg.Pos(), fnName(reg), fmt.Sprint(callers), fmt.Sprintf("the validate step has callers %v besides the admission path", callers))
 	}
 
+	// ---- C02.7 an expired registration is really gone
+	checkRemovalUnconditional(c, "C02.7")
+
 	// ---- C02.6 labels
 	r.Rule("C02.6", "identifier labels are pairwise distinct and keyed by the shared secret", 3)
 	labels := map[string][]string{}
